@@ -150,6 +150,25 @@ REAL = [("Z1", dict(n=4)), ("Z2", dict(n=4)), ("Z3", dict(n=4)), ("Z4", dict(n=3
         ("Z3", dict(n=4, mx=3), dict(pre=["a.out_3", "b.out_2"])), ("Z2", dict(n=3), dict(pre=["a.out_2", "a.out_3"]))]
 PRE_CLOSED = [("Z1", dict(n=3, mx=2), dict(pre=["a.out_2_v"])), ("Z3", dict(n=2), dict(pre=["a.out_2"]))]
 
+def empty_param_scenario(chk):
+    """an EMPTY string is a legal parameter value when the command does not substitute it (here it only appears in the output path):
+    the input set it belongs to, and every later one, is processed like any other"""
+    inst = dict(name="EMPTYP", max=2, bufsize=2,
+                procs=[zoo.src("s", zoo.items(4)),
+                       dict(name="a", kind="cmd", ins=["in"], outs=["out"], params=["p"], outpaths={"out": "o/a_{i:in|basename|%.txt}_x{p:p}x.txt"}, arg="cat {i:in} > {o:out}"),
+                       dict(name="b", kind="cmd", ins=["x"], outs=["out"], outpaths={"out": "o/b_{i:x|basename}"}, arg="cat {i:x} > {o:out}")],
+                edges=[zoo.E("s.out", "a.in"), zoo.E("a.out", "b.x")], feeds=[dict(to="a.p", values=["u", "", "w", "y"])])
+    for rr in fc.real_runs(inst, [dict(env={}, bufsize=2, timeout=30), dict(env={"VERIF_JITTER": "13"}, bufsize=1, timeout=30)]):
+        chk.evaluations += 1
+        got = sorted(p for p in rr.snapshot if p.startswith("o/") and p.endswith(".txt"))
+        want = sorted(["o/a_%d_x%sx.txt" % (k, v) for k, v in zip((1, 2, 3, 4), ("u", "", "w", "y"))] + ["o/b_a_%d_x%sx.txt" % (k, v) for k, v in zip((1, 2, 3, 4), ("u", "", "w", "y"))])
+        if rr.timeout or rr.deadlock:
+            chk.violation("parameter stream containing an empty value: the workflow did not return", dict(instance=inst))
+        elif rr.rc != 0 or got != want:
+            chk.violation("parameter stream u, '', w, y (value only used in the output path): files %s, expected one task per input set: %s (rc=%s)" % (got, want, rr.rc), dict(instance=inst, stderr=rr.stderr[-300:]))
+        else:
+            chk.nontrivial.add("empty-parameter-value")
+
 def fanin_close_stress(chk, tier):
     """one in-port with 25 upstreams (24 of them empty sources) that close at practically the same instant, debug logging on:
     the last-closer decision of InPort.CloseConnection must be taken once (closeLock) - repeated many times"""
@@ -170,7 +189,7 @@ def fanin_close_stress(chk, tier):
 
 @register("C04")
 def check_C04(tier):
-    return run_flow_check("C04", tier, {"C04"}, post=lambda chk: fanin_close_stress(chk, tier),
+    return run_flow_check("C04", tier, {"C04"}, post=lambda chk: (fanin_close_stress(chk, tier), empty_param_scenario(chk)),
         closed_cases=(THOROUGH_CLOSED if tier == "thorough" else QUICK_CLOSED) + PRE_CLOSED,
         real_cases=REAL, gen=40 if tier == "thorough" else 10, nvar=8 if tier == "thorough" else 4,
         weak_cases=[("Z2", dict(n=1), "SendFirstRemoteOnly", "C04_AtReturn")],
